@@ -9,6 +9,7 @@ import (
 
 	"github.com/valinurovam/garagemq/amqp"
 	"github.com/valinurovam/garagemq/interfaces"
+	"github.com/valinurovam/garagemq/verifhook"
 )
 
 // MsgStorage represents storage for store all durable messages
@@ -74,6 +75,8 @@ func (storage *MsgStorage) getQueueLen() int {
 }
 
 func (storage *MsgStorage) persist() {
+	verifhook.Enter("store.persist")
+	defer verifhook.Exit("store.persist")
 	storage.persistLock.Lock()
 	add := storage.add
 	del := storage.del
@@ -130,13 +133,16 @@ func (storage *MsgStorage) persist() {
 		)
 	}
 
+	verifhook.At("persist.beforeBatch")
 	if err := storage.db.ProcessBatch(batch); err != nil {
 		panic(err)
 	}
+	verifhook.At("persist.afterBatch")
 
 	for _, message := range add {
 		if message.ConfirmMeta != nil && storage.confirmMode && message.ConfirmMeta.DeliveryTag > 0 {
 			message.ConfirmMeta.ActualConfirms++
+			verifhook.Sent("store.relay")
 			storage.confirmSyncCh <- message
 		}
 	}
